@@ -928,6 +928,29 @@ func (st *State) checkInvariant(fr *Frame, li *loopInfo, phase string) {
 	}
 }
 
+// countedFrom recognises a loop-head phi of integer type whose incoming values are one integer constant c and
+// the phi itself plus a positive constant: i := c; ...; i += k.
+func countedFrom(p *ssa.Phi) (*Term, bool) {
+	if b, ok := p.Type().Underlying().(*types.Basic); !ok || b.Info()&types.IsInteger == 0 || len(p.Edges) != 2 {
+		return nil, false
+	}
+	var lo *Term
+	step := false
+	for _, e := range p.Edges {
+		if c, ok := e.(*ssa.Const); ok && c.Value != nil && c.Value.Kind() == constant.Int {
+			if v, exact := constant.Int64Val(c.Value); exact {
+				lo = IntLit(v)
+			}
+		}
+		if bo, ok := e.(*ssa.BinOp); ok && bo.Op == token.ADD && bo.X == ssa.Value(p) {
+			if c, ok := bo.Y.(*ssa.Const); ok && c.Value != nil && c.Value.Kind() == constant.Int && constant.Sign(c.Value) > 0 {
+				step = true
+			}
+		}
+	}
+	return lo, lo != nil && step
+}
+
 func (st *State) assumeInvariant(fr *Frame, li *loopInfo) {
 	// automatic facts: range index >= -1
 	for _, in := range li.head.Instrs {
@@ -937,6 +960,11 @@ func (st *State) assumeInvariant(fr *Frame, li *loopInfo) {
 		}
 		if p.Comment == "rangeindex" {
 			st.assume(Ge(st.scalar(fr.vals[p]), IntLit(-1)))
+		} else if lo, ok := countedFrom(p); ok {
+			// a counter whose only definitions are "c" and "itself + positive constant" never goes below c
+			if t, ok := fr.vals[p].(*Term); ok && t.Sort == SInt {
+				st.assume(Ge(t, lo))
+			}
 		}
 	}
 	if li.spec == nil {
